@@ -673,7 +673,7 @@ func (rc *RegClient) imageCopyOpt(ctx context.Context, refSrc ref.Ref, refTgt re
 				switch dEntry.MediaType {
 				case mediatype.Docker1Manifest, mediatype.Docker1ManifestSigned,
 					mediatype.Docker2Manifest, mediatype.Docker2ManifestList,
-					mediatype.OCI1Manifest, mediatype.OCI1ManifestList:
+					mediatype.OCI1Manifest, mediatype.OCI1ManifestList, mediatype.OCI1Artifact:
 					// known manifest media type
 					err = rc.imageCopyOpt(ctx, entrySrc, entryTgt, dEntry, true, parentsNew, opt)
 				case mediatype.Docker2ImageConfig, mediatype.OCI1ImageConfig,
